@@ -10,7 +10,7 @@ COQ_CASE_TYPE = "case"
 COQ_AGREE = "agree"
 COQ_PROP_OK = "prop_ok"
 RULE = ("the real pamiq_core/torch/model.py over a stand-in torch package; one inferring sim thread running 1-4 sections (infer() or 'with unwrap() as m') that read every parameter, one training sim thread running 1-6 operations "
-        "(a step that rewrites every parameter and every grad in place, or sync()); 1-3 parameters; the inference procedure is the default one or a method given by name; every source line of torch/model.py, every lock operation and every tensor operation is a scheduling point and the schedule switches "
+        "(a step that rewrites every parameter and every grad in place, or sync()); 1-3 parameters, in 30% of the runs all frozen (requires_grad=False, updated in place by the trainer all the same); the inference procedure is the default one or a method given by name; every source line of torch/model.py, every lock operation and every tensor operation is a scheduling point and the schedule switches "
         "threads at 0-4 chosen points (quick: seeded random points; thorough: every single point and random pairs / triples). The observed event sequence must be accepted by the model, satisfy the monitor "
         "(no training write to the module a locked section reads; one module per section), and after a final sync both sides hold equal values, training mode restored, different objects. "
         "Non-trivial = at least one switch falls between an unwrap()/infer() call and its lock release while a sync is in flight; distinct = canonical JSON.")
@@ -39,7 +39,8 @@ def gen_one(rng, tier):
     k = rng.choice([0, 1, 2, 2, 3, 4])
     # preemption points as fractions of the length of the un-preempted run (measured by the runner)
     return {"nparams": n, "inf": inf, "train": train, "preempt": [], "preempt_frac": sorted(round(rng.random(), 3) for _ in range(k)), "distinct": rng.random() < 0.5,
-            "named_proc": rng.random() < 0.4}     # the inference procedure given as the NAME of a method of the module class
+            "named_proc": rng.random() < 0.4,     # the inference procedure given as the NAME of a method of the module class
+            "frozen": rng.random() < 0.3}         # every parameter has requires_grad=False (a frozen / target network that the trainer updates in place)
 
 
 def gen(rng, tier):
@@ -48,6 +49,7 @@ def gen(rng, tier):
         base = {"nparams": 2, "inf": [["unwrap"], ["infer"]], "train": [["step"], ["sync"], ["step"], ["sync"]], "distinct": True}
         for a in range(0, 200):
             cases.append(dict(base, preempt=[a]))
+            cases.append(dict(base, preempt=[a], frozen=True))
         for a in range(0, 200, 2):
             for b in range(a + 1, 200, 7):
                 cases.append(dict(base, preempt=[a, b]))
@@ -182,7 +184,7 @@ def describe(case, obs):
 
 
 def distribution(cases, obs):
-    d = {"runs": len(cases), "events": 0, "sections": {"infer": 0, "unwrap": 0}, "syncs": 0, "steps": 0, "switches": 0, "preempt_points": {}}
+    d = {"runs": len(cases), "events": 0, "sections": {"infer": 0, "unwrap": 0}, "syncs": 0, "steps": 0, "switches": 0, "preempt_points": {}, "frozen_models": sum(1 for c in cases if c.get("frozen"))}
     for c, o in zip(cases, obs):
         ev = o.get("events", [])
         d["events"] += len(ev)
